@@ -44,6 +44,15 @@ def discharge(ob, timeout_ms, _phase=0, single=False):
     Order of attempts: all hypotheses; hypothesis slices; then the seed portfolio (phase 1)"""
     g = z3.simplify(ob.goal)
     t0 = time.time()
+    import os as _os
+    if _os.environ.get('PYVC_DUMP') and _phase == 0:
+        # debugging aid: the negated obligation as SMT-LIB text
+        sd = z3.Solver()
+        for c in ob.pc:
+            sd.add(c)
+        sd.add(z3.Not(ob.goal))
+        with open(_os.environ['PYVC_DUMP'], 'w') as fh:
+            fh.write(sd.to_smt2())
     if z3.is_true(g):
         return Result(ob, 'discharged', 0.0, 'z3-simplify')
     # portfolio over solver seeds: sequence obligations are sensitive to the search order, a proof
@@ -249,7 +258,11 @@ class FunctionVerifier:
                 env['result'] = v
                 ctx = ex.ctx(o.p, env)
                 for src in getattr(c, 'exit_reveal', []) or []:
-                    ex.spec.ev(ast.parse(f'reveal({src})', mode='eval').body, ctx)
+                    if src.startswith('old(') and src.endswith(')'):
+                        # the definition as it read in the entry state
+                        ex.spec.ev(ast.parse(f'old(reveal({src[4:-1]}))', mode='eval').body, ctx)
+                    else:
+                        ex.spec.ev(ast.parse(f'reveal({src})', mode='eval').body, ctx)
                 goals = [(cl, ex.spec.bool(cl.ast, ctx)) for cl in c.ensures]
                 for cl, goal in goals:
                     ex.oblige(o.p, goal, f'{fshort}/{cl.name}', cl.props, 'ensures', fi.node.lineno)
